@@ -207,9 +207,10 @@ def check_C10(ctx, unit):
             ctx.inst("A1.reader-acquire", "%s: load #%d (%s)" % (f.uq, i + 1, a.obj[-1] if a.obj and a.obj[-1][0] != "[" else (a.obj[-2] if a.obj else "?")),
                      a.order in RA.ACQ, a.loc, "load of %s is %s; readers need acquire" % (".".join(a.obj or ("?",)), a.oname()), f)
         wr = [a for a in acc if a.op != "load"]
-        rets = [n for n in f.events() if n.kind == "ReturnStmt" and n.child("val") is not None
-                and not (n.child("val").strip().get("nullc") or n.child("val").get("nullc")
-                         or n.child("val").strip().kind == "CXXNullPtrLiteralExpr")]
+        from .ir import exit_values
+        # (every place the result is decided: early returns, or the assignments to a `result` local of a single-exit form)
+        rets = [a_ for a_, v_ in exit_values(f) if v_ is not None
+                and not (v_.strip().get("nullc") or v_.get("nullc") or v_.strip().kind == "CXXNullPtrLiteralExpr")]
         if not rets:
             raise AnalysisBroken("anchor vanished: value return in find()")
         for r in rets:
@@ -307,6 +308,10 @@ def check_C09(ctx, unit):
                     continue
                 yd = resolve_alias(al, yd)
                 idx = RA.resolve_local(f, n.children[1], inits)
+                hops_ = 0
+                while idx.kind == "DeclRefExpr" and idx.d.get("d") in f.bind_map() and hops_ < 6:
+                    # parameter of a folded helper (entry_at(leaf, idx)): the caller's index
+                    idx, hops_ = RA.resolve_local(f, std_unwrap(f.node(f.bind_map()[idx.d["d"]])), inits), hops_ + 1
                 cnt += 1
                 inst = "%s: %s[] #%d" % (f.uq, bp[-1], cnt)
                 if idx.kind == "DeclRefExpr" and _is_loop_var(f, idx):
@@ -456,6 +461,8 @@ def check_C09(ctx, unit):
     if n_split == 0:
         raise AnalysisBroken("anchor vanished: depth counter of the split node in find_or_insert")
     check_iterator_present(ctx, unit)
+    check_leaf_walk_total(ctx, unit)
+    check_parent_matches_link(ctx, unit)
     # address stability
     for r in unit.record(TREE):
         inst = r["qn"]
@@ -741,6 +748,168 @@ def check_iterator_present(ctx, unit, rule="E.iterator-present"):
             ctx.inst(rule, "%s: %s #%d" % (f.uq, what, k + 1), ok, at.loc, why, f)
     if n_inst < 2:
         raise AnalysisBroken("anchor vanished: positions handed out by begin()/operator++ of the radix tree iterator")
+
+
+def check_parent_matches_link(ctx, unit, rule="H.parent-matches-link"):
+    """The destructor and the iterator climb through `parent`; find_or_insert links downwards.  Wherever a node X is stored
+    into a link slot of node Y, the parent field of X was assigned Y on the way (resolved through locals and casts; a value
+    read from a parent field that the function has itself just overwritten is the value it wrote there)."""
+    from .rules_attr import _is_null
+    ctx.rule(rule, "find_or_insert: every node stored into `Y->links[..]` has had its parent field set to Y before the store "
+             "(a parent that does not match the link makes the destructor's climb free a node twice or skip one)", 3)
+    fs = [f for f in unit.functions if (f.owner_cls or "") == TREE and f.name == "find_or_insert"]
+    if not fs:
+        raise AnalysisBroken("anchor vanished: rcu_radixtree::find_or_insert")
+    for f in fs[:1]:
+        inits = RA.local_inits(f)
+
+        def res(e):
+            # through casts and alias locals (`auto cp = static_cast<link_node *>(p)`), never into what a node was built from
+            x = _strip_casts(e)
+            hops = 0
+            while x.kind == "DeclRefExpr" and x.get("local") and x.d["d"] in inits and not RA._reassigned(f, x.d["d"]) and hops < 8:
+                y = _strip_casts(inits[x.d["d"]])
+                if y.kind not in ("DeclRefExpr", "MemberExpr"):
+                    break
+                x, hops = y, hops + 1
+            return x
+        pw = []     # (node, owner canon, value node)
+        for n in f.events():
+            if n.kind == "BinaryOperator" and n.op == "=":
+                l = n.children[0].strip()
+                if l.kind == "MemberExpr" and l.get("m") == "parent" and l.children:
+                    pw.append((n, canon(res(l.children[0])), n.children[1]))
+
+        def value_of(w):
+            n, own, v = w
+            x = res(v)
+            if x.kind == "MemberExpr" and x.get("m") == "parent" and x.children:
+                src = canon(res(x.children[0]))
+                prev = [w2 for w2 in pw if w2[1] == src and f.dominates(w2[0].id, n.id) and w2[0].id != n.id]
+                if prev:
+                    return value_of(prev[-1])
+            return canon(x)
+        k = 0
+        for n in sorted([x for x in f.events() if x.kind == "CXXMemberCallExpr" and x.callee and x.callee["n"] == "store" and x.args], key=lambda x: x.loc):
+            o = n.child("obj")
+            if o is None:
+                continue
+            ob = std_unwrap(o)
+            if ob.kind != "ArraySubscriptExpr":
+                continue
+            base = ob.children[0].strip()
+            if base.kind == "ImplicitCastExpr" and base.children:
+                base = base.children[0].strip()
+            if base.kind != "MemberExpr" or base.get("m") != "links" or not base.children:
+                continue
+            if _is_null(n.args[0]):
+                continue
+            k += 1
+            Y, X = canon(res(base.children[0])), canon(res(n.args[0]))
+            ws = [w for w in pw if w[1] == X and f.dominates(w[0].id, n.id)]
+            vals = [value_of(w) for w in ws]
+            ok = bool(ws) and vals[-1] == Y
+            ctx.inst(rule, "%s::find_or_insert: link store #%d" % (TREE, k), ok, n.loc,
+                     "%s is stored into a link of %s; its parent field was set to %s" % (
+                         X.split("#")[0], Y.split("#")[0], (vals[-1].split("#")[0] if vals else "nothing")), f)
+        if k < 3:
+            raise AnalysisBroken("anchor vanished: stores of nodes into link slots in find_or_insert (found %d)" % k)
+
+
+def check_leaf_walk_total(ctx, unit, rule="E.leaf-walk-total"):
+    """operator++ and begin() take a null from next_leaf() for "no further leaf".  So next_leaf() may produce null only where it
+    has climbed past the root (the parent link of its cursor is null); wherever it hands on the result of another member
+    (first_leaf of a sibling subtree), that member must not be able to return null there -- its own null returns are all
+    under "my argument is null", and the argument is tested non-null at the call."""
+    from .ir import value_leaves
+    from .rules_attr import _is_null
+    ctx.rule(rule, "next_leaf() returns null only where the parent link of its cursor is null; a member whose result it forwards "
+             "(first_leaf) returns null only for a null argument, and is called with an argument tested non-null: a null from "
+             "next_leaf never hides leaves that follow", 1)
+    fs = {}
+    for f in unit.functions:
+        if (f.owner_cls or "") == TREE:
+            fs.setdefault(f.name, f)
+    nl = fs.get("next_leaf")
+    if nl is None:
+        raise AnalysisBroken("anchor vanished: rcu_radixtree::next_leaf")
+    memo = {}
+
+    def neg_fact(cond, truth):
+        c, t = cond.strip(), truth
+        while c.kind == "UnaryOperator" and c.op == "!":
+            c, t = c.children[0].strip(), not t
+        return std_unwrap(c), t
+
+    def null_returns(g, depth=0):
+        """[(where, param index or None)]: returns of g whose value may be null; param index k: only when parameter k is null"""
+        if g.d["did"] in memo:
+            return memo[g.d["did"]]
+        memo[g.d["did"]] = []
+        out = []
+        params = [p_["d"] for p_ in g.params()]
+        for r in g.return_nodes():
+            for x in value_leaves(g, r.child("val")):
+                facts = flow.facts_at(g, r.id)
+                if _is_null(x):
+                    k = None
+                    for cond, truth in facts:
+                        cu, t = neg_fact(cond, truth)
+                        if not t and cu.kind == "DeclRefExpr" and cu.d.get("d") in params and not RA._reassigned_before(g, cu.d["d"], r.id):
+                            k = params.index(cu.d["d"])
+                    out.append((r.loc, k))
+                else:
+                    c = _strip_casts(x)
+                    if c.is_call() and c.callee and c.callee["n"] in fs and depth < 6 and fs[c.callee["n"]].d["did"] != g.d["did"]:
+                        for loc, k in null_returns(fs[c.callee["n"]], depth + 1):
+                            a = c.args[k] if (k is not None and len(c.args) > k) else None
+                            known = a is not None and any(t_ and canon(_strip_casts(cd_)) == canon(_strip_casts(a)) for cd_, t_ in flow.facts_at(g, c.id))
+                            if not known:
+                                out.append((r.loc, None))
+        memo[g.d["did"]] = out
+        return out
+    inits = RA.local_inits(nl)
+
+    def from_parent(e):
+        e = _strip_casts(e)
+        return e.kind == "MemberExpr" and e.get("m") == "parent"
+    bad = []
+    n_ret = 0
+    for r in nl.return_nodes():
+        n_ret += 1
+        for x in value_leaves(nl, r.child("val")):
+            facts = flow.facts_at(nl, r.id)
+            if _is_null(x):
+                top = False
+                for cond, truth in facts:
+                    cu, t = neg_fact(cond, truth)
+                    if t:
+                        continue
+                    if from_parent(cu):
+                        top = True
+                    if cu.kind == "DeclRefExpr":
+                        if cu.d.get("d") in inits and from_parent(inits[cu.d["d"]]):
+                            top = True
+                        # a cursor re-assigned from a parent link on the way round (`for(p = n->parent; p; p = n->parent)`)
+                        for y in nl.all_nodes():
+                            if y.kind == "BinaryOperator" and y.op == "=" and std_unwrap(y.children[0]).kind == "DeclRefExpr" \
+                                    and std_unwrap(y.children[0]).d.get("d") == cu.d.get("d") and from_parent(y.children[1]):
+                                top = True
+                if not top:
+                    bad.append("returns null at %s although the parent link of the cursor is not known to be null there" % r.loc)
+            else:
+                c = _strip_casts(x)
+                if c.is_call() and c.callee and c.callee["n"] in fs and fs[c.callee["n"]].d["did"] != nl.d["did"]:
+                    for loc, k in null_returns(fs[c.callee["n"]]):
+                        a = c.args[k] if (k is not None and len(c.args) > k) else None
+                        known = a is not None and any(t_ and canon(_strip_casts(cd_)) == canon(_strip_casts(a)) for cd_, t_ in flow.facts_at(nl, c.id))
+                        if not known:
+                            bad.append("hands on the result of %s() at %s, which may be null (%s): the walk would end with leaves still ahead" % (
+                                c.callee["n"], r.loc, loc))
+    if n_ret < 2:
+        raise AnalysisBroken("anchor vanished: return sites of next_leaf (found %d)" % n_ret)
+    ctx.inst(rule, TREE + "::next_leaf", not bad, nl.loc, "; ".join(sorted(set(bad))[:2]) if bad else
+             "%d return sites: null only past the root, forwarded results cannot be null" % n_ret, nl)
 
 
 def canon_this_n(f):
